@@ -51,7 +51,11 @@ def programs(rnd, n, profile=None):
     tries = 0
     while len(out) < n and tries < 40 * n:
         tries += 1
-        src = gen.G(rnd, prof).program(nstmts=rnd.randint(3, 8))[0]
+        if tries % 7 == 0:
+            import check_c19                       # an OpenQASM 2 program: the version-2 module class has its own accept / printer
+            src = check_c19.qasm2_program(rnd)
+        else:
+            src = gen.G(rnd, prof).program(nstmts=rnd.randint(3, 8))[0]
         try:
             m = pyqasm.loads(src)
             m.unroll()
